@@ -633,6 +633,12 @@ pub fn binary(op: &str, a: &Value, b: &Value) -> Exp {
 
 /// DateTime − DateTime as an exact Duration, None when it does not fit.
 fn datetime_diff(x: &DateTime<Utc>, y: &DateTime<Utc>) -> Option<TimeDelta> {
+    // An operand that represents a leap second (nanosecond part >= 10^9): the language does not say how long ago a leap
+    // second was, and chrono's own rule (one leap second is assumed, counted depending on the time-of-day order of the two
+    // operands) is the only definition there is — "the type's own arithmetic". Everything else is computed independently.
+    if x.timestamp_subsec_nanos() >= 1_000_000_000 || y.timestamp_subsec_nanos() >= 1_000_000_000 {
+        return Some(x.signed_duration_since(*y));
+    }
     let secs = x.timestamp() as i128 - y.timestamp() as i128;
     let nanos = x.timestamp_subsec_nanos() as i128 - y.timestamp_subsec_nanos() as i128;
     let total = secs * 1_000_000_000 + nanos;
